@@ -171,6 +171,11 @@ func mainUniverse(seed uint64, variant int) []*synthrepo.Pkg {
 					synthrepo.File{Name: "usr/lib/" + name + "/current", Type: tar.TypeSymlink, Linkname: name + ".so", Mode: 0o777},
 				)})
 		}
+		// the service-bundle entrypoint adds "s6" to the world
+		add(&synthrepo.Pkg{Name: "s6", Version: "2.12.0.3-r1", Origin: "s6", BuildTime: 1700006000, Deps: []string{"base"},
+			Files: append(dirs("bin", "sv"),
+				synthrepo.File{Name: "bin/s6-svscan", Mode: 0o755, Content: blob(r, 3000)},
+			)})
 		add(&synthrepo.Pkg{Name: "meta", Version: "1-r0", Origin: "meta", BuildTime: 1700009999,
 			Deps: append([]string{"foo", "baz", "qux", "data-b"}, libs...)})
 	}
